@@ -91,7 +91,7 @@ func VH_C20_one_label_per_client() {
 	connLabel := m.getIPInfoFromAddr(addr).CountryCode
 	t := m.AddOpenTCPConnection(&verifConn{remote: addr, local: &net.TCPAddr{IP: net.IPv4(192, 0, 2, 1), Port: 443}})
 	t.AddAuthenticated("k1")
-	verifAssert("C20.one-label.tunnel-tracked", len(m.tunnelTimeMetrics.activeClients) == 1)
+	verifReach("C20.one-label.tunnel-tracked", len(m.tunnelTimeMetrics.activeClients) == 1)
 	for _, c := range m.tunnelTimeMetrics.activeClients {
 		verifAssert("C20.one-label.same-label-for-connection-and-tunnel-time", c.info.CountryCode == connLabel)
 	}
